@@ -376,6 +376,28 @@ pub fn c11_specs(tier: Tier) -> Vec<Spec> {
             }
         }
     }
+    // NAMES: one name a prefix of the other (both declaration orders), digits and underscores, names
+    // that differ only in case, names that are flag letters or keywords of the attribute syntax, long
+    // names - a reference is resolved by its whole name, nothing else
+    {
+        let pairs = [("hex_digit", "hex"), ("hex", "hex_digit"), ("a", "ab"), ("ab", "a"), ("d", "d1"), ("d1", "d"), ("x_", "x"), ("x", "x_"), ("A", "a"), ("a", "A"), ("i", "u"), ("s", "ss"), ("u", "i"),
+            ("subpattern", "skip"), ("n0", "n00"), ("n00", "n0"), ("_", "__"), ("__", "_"), ("r#x", "r"), ("a1b2", "a1b"), ("é", "ée"), ("long_name_of_a_subpattern_0123456789_abcdefghijklmnopqrstuvwxyz", "long_name_of_a_subpattern_0123456789")];
+        for (n1, n2) in pairs {
+            // the second one refers to the first; users refer to either or both
+            let b2 = format!("0x(?&{n1})+");
+            for user in [format!("(?&{n2})"), format!("(?&{n1})(?&{n2})"), format!("(?&{n2})|(?&{n1})z"), format!("<(?&{n1})>")] {
+                for utf8 in [true, false] {
+                    specs.push(Spec::new(utf8, vec![Pat::regex(&user)]).with_sub(n1, "[0-9a-f]").with_sub(n2, &b2));
+                }
+                specs.push(Spec::new(true, vec![Pat::skip(&user), Pat::token("q")]).with_sub(n1, "[0-9a-f]").with_sub(n2, &b2));
+            }
+            // independent bodies, both declaration orders, each name used alone and together
+            for user in [format!("(?&{n1})-(?&{n2})"), format!("(?&{n2})-(?&{n1})"), format!("k(?&{n1})"), format!("k(?&{n2})")] {
+                specs.push(Spec::new(true, vec![Pat::regex(&user)]).with_sub(n1, "a|b").with_sub(n2, "[0-9]"));
+                specs.push(Spec::new(true, vec![Pat::regex(&user)]).with_sub(n2, "[0-9]").with_sub(n1, "a|b"));
+            }
+        }
+    }
     // byte-string subpatterns
     for (body, user) in [(&b"\xff"[..], "a(?&s)"), (b"[\x80-\xbf]", "(?&s)+"), (b"a|\xfe", "x(?&s)y"), (b".", "(?&s)z")] {
         specs.push(Spec::new(false, vec![Pat::regex(user)]).with_bsub("s", body));
